@@ -384,6 +384,7 @@ func runC03(r *vfw.Run) {
 				}
 			}
 		}
+		origState := rr.Proposer.LastApplied // the result of the honest block, as its proposer computed it
 		for k := 0; k < perBlock; k++ {
 			victim := lr.nodes[r.Choose("c03.victim", len(lr.nodes))]
 			op, arg := r.Choose("c03.op", 30), r.Choose("c03.arg", 256)
@@ -408,8 +409,17 @@ func runC03(r *vfw.Run) {
 				r.Violate("C03:tampered-block-panicked", "operator %s on block h=%d: %v\n%s", label, rr.Height, pv, st)
 			}
 			after := victimDigest(victim, addrs, withContent)
+			if ierr == nil && label == "body.drop+recomputed" && scen.SameStates(origState, victim.LastApplied) {
+				// the dropped transaction left no trace in the block's result (e.g. a fee-free ceremony transaction of an account
+				// that the epoch change in the same block sweeps away): the remaining body with its recomputed derived fields is
+				// another valid block with the very same result - nothing in it is inconsistent. The victim now sits on that
+				// sibling of the honest block, so the run ends here.
+				r.Probe("body_without_a_traceless_transaction_accepted(another_valid_block)")
+				r.Case(fmt.Sprintf("%x/%s/%d", rr.Block.Hash().Bytes()[:8], label, arg), true)
+				return false
+			}
 			if ierr == nil {
-				r.Violate("C03:tampered-block-accepted/"+label, "node %d accepted block h=%d (empty=%v, %d txs) altered by operator %s (arg %d)", victim.ID, rr.Height, rr.Empty, rr.Txs, label, arg)
+				r.Violate("C03:tampered-block-accepted/"+label, "node %d accepted block h=%d (empty=%v, %d txs) altered by operator %s (arg %d); result of the honest block (A) vs result of the altered one (B):%s", victim.ID, rr.Height, rr.Empty, rr.Txs, label, arg, scen.DiffStates(origState, victim.LastApplied))
 			}
 			if before != after {
 				r.Violate("C03:rejected-block-left-side-effects/"+label, "node %d rejected block h=%d altered by %s (%v) but changed: before %s | after %s", victim.ID, rr.Height, label, ierr, before, after)
